@@ -49,7 +49,7 @@ class C09(PropBase):
     RUNS = {"quick": 16000, "thorough": 240000}
     STEPS = {"quick": 70, "thorough": 140}
     REQUIRED_CELLS = tuple("%s/%s" % (k, c) for k in policy.RESPONSE_KINDS for c in ID_CLASSES)
-    REQUIRED_REACH = ("dup_final", "response_after_done", "entry_for_nonsearch", "request_to_client", "id_after_refused_call",
+    REQUIRED_REACH = ("call_on_copy_first", "dup_final", "response_after_done", "entry_for_nonsearch", "request_to_client", "id_after_refused_call",
                       "refused_search_while_binding_then_response", "notice_or_unbind_to_client", "two_in_progress",
                       "closed_then_request_probes", "long_session_preroll", "unimplemented_protocol_op_to_client")
 
@@ -139,6 +139,8 @@ class C09(PropBase):
         c = policy.client_call(g, model, illegal_p=init["illegal_p"], allow_unbind=0.015)
         if c is None:
             return None
+        if rng.random() < 0.04:
+            return {"op": "call", "who": "c", "m": c[0], "a": c[1], "via_copy": True}
         return {"op": "call", "who": "c", "m": c[0], "a": c[1]}
 
     # ------------------------------------------------------------------
@@ -159,10 +161,30 @@ class C09(PropBase):
             return
         if k == "call":
             pre = se.model.clone()
+            twin = None
+            if op.get("via_copy"):
+                # an application that snapshots its session (copy.deepcopy) mid-conversation and goes on with the copy must
+                # be handed the same id as the session itself would hand out next
+                try:
+                    from ..values import build_call
+
+                    cp = w.clone("c")
+                    args, kw = build_call(op["m"], op.get("a", {}), {})
+                    if op["m"] in ("bind", "bind_simple", "bind_sasl") and op.get("a", {}).get("_version", 3) != getattr(cp, "version", 3):
+                        cp.version = op["a"]["_version"]
+                    twin = (True, getattr(cp, op["m"])(*args, **kw))
+                except Exception:  # noqa: BLE001
+                    twin = (False, None)
             ev = w.apply(op)
             if ev.get("noop") or ev.get("expect") is None:
                 return
             m = op["m"]
+            if twin is not None and m != "unbind":
+                st.hit("call_on_copy_first")
+                if twin != (ev["accepted"], ev["ret"]):
+                    raise Violation(P, "id-differs-on-copy", "%s on a deep copy of the session: accepted=%s id=%r; on the session itself: "
+                                    "accepted=%s id=%r (ids handed out so far %r)" % (m, twin[0], twin[1], ev["accepted"], ev["ret"],
+                                                                                    st.x["ids"][-5:]))
             st.label("call:%s:%s" % (m, "acc" if ev["accepted"] else "ref"))
             st.x["cells"].add(("call", m, pre.st, ev["accepted"]))
             if ev["accepted"] and m != "unbind":
